@@ -74,7 +74,7 @@ def family_a(ck, case, rnd):
     if sp.concatpaths(subs) != path:
         bad('concatpaths(continuous_subpaths) != path', 'continuous_subpaths/concat', 'path', 'differs')
     etol = 0 if exact else 1e-12 * max(1, tot)      # Q/C control points at halves/thirds are not dyadic: rounding only
-    if abs(path.point(0) - path.start) > etol or abs(path.point(1) - path.end) > etol or path.start != segs[0].start or path.end != segs[-1].end:
+    if not (abs(path.point(0) - path.start) <= etol) or not (abs(path.point(1) - path.end) <= etol) or path.start != segs[0].start or path.end != segs[-1].end:
         bad('point(0)/point(1) vs start/end', 'endpoints', [segs[0].start, segs[-1].end], [path.point(0), path.point(1)])
     for j, K, t in ts:
         T = j / (2.0 * tot)
@@ -106,8 +106,8 @@ def family_a(ck, case, rnd):
                 later = [m for m in range(K, n) if lens[m] > 0]
                 if later:
                     cands.append(segs[later[0]].start)
-            if min(abs(pt - c) for c in cands) > 1e-9 * max(1, tot) or abs(own - pt) > 1e-9 * max(1, tot) or abs(back - T) > 1e-12 \
-                    or abs(path.t2T(k, tt) - T) > 1e-12 or not (-1e-12 <= tt <= 1 + 1e-12):
+            if min(abs(pt - c) for c in cands) > 1e-9 * max(1, tot) or not (abs(own - pt) <= 1e-9 * max(1, tot)) or not (abs(back - T) <= 1e-12) \
+                    or not (abs(path.t2T(k, tt) - T) <= 1e-12) or not (-1e-12 <= tt <= 1 + 1e-12):
                 bad('point/T2t/t2T incoherent: T2t=%r point=%r own=%r back=%r' % ((k, tt), pt, own, back), 'T2t/incoherent',
                     [K - 1, str(tq), repr(exp_pt)], [k, tt, repr(pt)], T)
                 return
@@ -172,7 +172,7 @@ def family_b(ck, n, jn, closing, runs, rnd, variant):
         if s1.end == s2.start:
             bad('subpaths not maximal', 'continuous_subpaths/maximal', 'distinct', 'joined')
     size = max(abs(z) for s in segs for z in (s.start, s.end)) + 1
-    if abs(path.point(0) - segs[0].start) > 1e-12 * size or abs(path.point(1) - segs[-1].end) > 1e-12 * size \
+    if not (abs(path.point(0) - segs[0].start) <= 1e-12 * size) or not (abs(path.point(1) - segs[-1].end) <= 1e-12 * size) \
             or path.start != segs[0].start or path.end != segs[-1].end:
         bad('point(0)/point(1)/start/end', 'endpoints', [segs[0].start, segs[-1].end], [path.point(0), path.point(1)])
     lens = [s.length() for s in segs]
@@ -188,7 +188,7 @@ def family_b(ck, n, jn, closing, runs, rnd, variant):
         except Exception as e:      # noqa
             bad('T2t/point raised %r at T=%r' % (e, T), 'T2t/raises-' + type(e).__name__, 'value', repr(e))
             return
-        if not (-1e-12 <= t <= 1 + 1e-12) or abs(own - pt) > 1e-8 * size or abs(back - T) > 1e-9 or not (cum[k] - 1e-9 <= T <= cum[k + 1] + 1e-9):
+        if not (-1e-12 <= t <= 1 + 1e-12) or not (abs(own - pt) <= 1e-8 * size) or not (abs(back - T) <= 1e-9) or not (cum[k] - 1e-9 <= T <= cum[k + 1] + 1e-9):
             bad('T=%r: T2t=%r point=%r own=%r t2T=%r occupancy=[%r,%r]' % (T, (k, t), pt, own, back, cum[k], cum[k + 1]),
                 'T2t/incoherent', 'coherent', [k, t, repr(pt), repr(own), back])
             return
